@@ -69,6 +69,10 @@ def run(ctx):
         spell = root + rng.choice(["", "", "", "/", "//"])
         J = lambda n: spell + "/" + n
         conf = rr.conf(mode, spell)
+        if t % 4 == 1:
+            # the attic switched off in the configuration: the keep directory, if one is there from earlier
+            # days, is still no invocation
+            open(conf, "a").write("keep-attic no\n")
         # the configuration file itself sits in the root: it is a plain file entry
         ents.append((os.path.basename(conf), "f"))
         # keep-dir cannot be configured (no parser in the grammar): it is always <root>/attic
